@@ -452,9 +452,12 @@ impl<P: CubicExtConfig> From<i8> for CubicExtField<P> {
 }
 
 impl<P: CubicExtConfig> From<bool> for CubicExtField<P> {
-    #[allow(clippy::unconditional_recursion)]
     fn from(other: bool) -> Self {
-        other.into()
+        Self::new(
+            u8::from(other).into(),
+            P::BaseField::ZERO,
+            P::BaseField::ZERO,
+        )
     }
 }
 
